@@ -210,7 +210,7 @@ def neighbourhood(seed, cases, rounds):
             out.append((stream + " " + hx(s), "search"))
     return out
 
-EXTRA_MODULES = {"C09": ["TB.Props.C09cost"], "C06": ["TB.Props.C06layout"]}
+EXTRA_MODULES = {"C09": ["TB.Props.C09cost", "TB.Props.C09layoutcost", "TB.Props.C09loadcost"], "C06": ["TB.Props.C06layout"]}
 
 def scale_cases(tier):
     """C09 promptness on WIDE inputs (the depth family is in total_stream): documents of 0.2-2 MB (thorough: four times
